@@ -9287,6 +9287,10 @@ class SVG(Group):
                         )  # 1000 default no information.
                     if height is None:
                         height = s.viewbox.height if s.viewbox is not None else 1000
+                    if width is None or height is None:
+                        # The viewBox was malformed: it provides no size either.
+                        width = 1000 if width is None else width
+                        height = 1000 if height is None else height
 
                     s.render(ppi=ppi, width=width, height=height, viewbox=s.viewbox)
                     width, height = s.width, s.height
